@@ -81,9 +81,9 @@ ImplBoolabilityNoMvv(v0) ==
               IF v.o.items # << >> THEN "value_always_true_mutable" ELSE "value_always_false_mutable"
          [] v.k = "subclass" -> "type_always_true"                                             \* :143
          [] v.k = "known" /\ v.o.c # "dict" ->                                                 \* :147
-              LET tb == ImplTypeBoolability(v.o.c, TRUE)
+              LET tyb == ImplTypeBoolability(v.o.c, TRUE)
               IN IF ImplKnownBool(v.o)
-                 THEN (IF tb = "boolable" THEN "value_always_true" ELSE "type_always_true")
+                 THEN (IF tyb = "boolable" THEN "value_always_true" ELSE "type_always_true")
                  ELSE "value_always_false"
          [] v.k \in {"typed", "newtype", "generic"} -> ImplTypeBoolability(v.c, FALSE)         \* :175
 
